@@ -39,6 +39,13 @@ func debugDump(repo, fn string) int {
 	}
 	f := p.Root.Func(fn)
 	if f == nil {
+		for _, pk := range p.Pkgs {
+			if sp := p.SSA.Package(pk.Types); sp != nil && sp.Func(fn) != nil {
+				f = sp.Func(fn)
+			}
+		}
+	}
+	if f == nil {
 		fmt.Println("no such function")
 		return 1
 	}
